@@ -67,6 +67,8 @@ DecRules(d, e, k, okdata) ==
   \o Iff("dec_no_success_on_invalid_stream",
          e.status = "Done" /\ k.v \in {"rej", "starved"} =>
             k.v = "rej" /\ k.why = "dist_before_start" /\ e.wrap)
+  \o Iff("dec_bad_trailer_is_checksum_mismatch",
+         k.v = "rej" /\ k.why = "adler" /\ e.status \in {"Failed", "Adler32Mismatch"} => e.status = "Adler32Mismatch")
   \o Iff("dec_done_consumes_exact_stream_length",
          e.status = "Done" /\ k.v = "done" /\ ~d.done => d.cin + e.consumed = k.endbyte)
   \o Iff("dec_done_with_complete_output",
